@@ -490,6 +490,9 @@ def find_function(relpath, qual):
             raise KeyError(f"{relpath}::{qual}")
         node = found
     seg = ast.get_source_segment(src, node)
+    if isinstance(node, ast.FunctionDef):
+        node = canonical_locals(node, f"{relpath}::{qual}")
+        node = statement_numbering(node)
     mut = os.environ.get("PYVC_MUTATE")
     if mut:
         mq, spec_ = mut.split("::", 1)
@@ -497,6 +500,126 @@ def find_function(relpath, qual):
             import copy as _copy
             node = mutate(_copy.deepcopy(node), spec_)
     return node, seg, hashlib.sha256(seg.encode()).hexdigest()[:16]
+
+
+# ----------------------------------------------------------------------------- names of locals (sidecar robustness)
+LOCALS_SEEN = {}
+_LOCALS_TABLE = None
+
+
+def binding_order(fn):
+    """parameters, then every other local in the order of its first binding occurrence in the source
+    (comprehension variables and nested functions' own names are not locals of fn)"""
+    names = [a.arg for a in fn.args.args + fn.args.kwonlyargs]
+    for extra in (fn.args.vararg, fn.args.kwarg):
+        if extra is not None:
+            names.append(extra.arg)
+    found = []
+
+    def walk(n, top=False):
+        if isinstance(n, (ast.ListComp, ast.SetComp, ast.DictComp, ast.GeneratorExp, ast.Lambda)):
+            return
+        if isinstance(n, (ast.FunctionDef, ast.ClassDef)) and not top:
+            found.append((n.lineno, n.col_offset, n.name))
+            return
+        if isinstance(n, ast.Name) and isinstance(n.ctx, ast.Store):
+            found.append((n.lineno, n.col_offset, n.id))
+        for ch in ast.iter_child_nodes(n):
+            walk(ch)
+    walk(fn, top=True)
+    for _, _, nm in sorted(found):
+        if nm not in names:
+            names.append(nm)
+    return names
+
+
+def canonical_locals(fn, key):
+    """Sidecar invariants name locals as they were spelled when the lock file was made.  When the function's locals
+    are the same in number but spelled differently (a harmless renaming), the AST that is verified is alpha-renamed
+    back to the recorded spelling: position in binding order identifies a local.  Renaming every occurrence of an
+    identifier to a name that occurs nowhere in the function preserves the meaning; when that cannot be guaranteed
+    the function is left as it is (the sidecar then reports `contract no longer applicable`)."""
+    global _LOCALS_TABLE
+    cur = binding_order(fn)
+    LOCALS_SEEN[key] = cur
+    if os.environ.get("PYVC_RELOCK") or os.environ.get("PYVC_NO_CANON"):
+        return fn
+    if _LOCALS_TABLE is None:
+        path = os.path.join(os.path.dirname(os.path.dirname(os.path.abspath(__file__))), "obligations.lock.json")
+        try:
+            import json
+            _LOCALS_TABLE = json.load(open(path)).get("__locals__", {})
+        except Exception:
+            _LOCALS_TABLE = {}
+    want = _LOCALS_TABLE.get(key)
+    if not want or want == cur or len(want) != len(cur):
+        return fn
+    ren = {c: w for c, w in zip(cur, want) if c != w}
+    used = {n.id for n in ast.walk(fn) if isinstance(n, ast.Name)} | {a.arg for a in ast.walk(fn) if isinstance(a, ast.arg)}
+    if any(w in used and w not in ren for w in ren.values()) or len(set(want)) != len(want):
+        return fn  # the recorded spelling is taken by something else: renaming could capture
+    import copy as _copy
+    fn2 = _copy.deepcopy(fn)
+    for n in ast.walk(fn2):
+        if isinstance(n, ast.Name) and n.id in ren:
+            n.id = ren[n.id]
+        elif isinstance(n, ast.arg) and n.arg in ren:
+            n.arg = ren[n.arg]
+    return fn2
+
+
+def statement_numbering(fn):
+    """Positions inside the verified AST are statement ordinals, not source lines: obligation names, path hashes,
+    loop ordinals and cut points then do not change when comments or blank lines are added, lines are re-wrapped or
+    the function moves in its file.  `lineno` of every node = ordinal of the statement it belongs to; `end_lineno`
+    of a statement = ordinal of the last statement nested in it.  The source lines are kept in fn.abs_lines."""
+    import copy as _copy
+    fn2 = _copy.deepcopy(fn)
+    fn2.abs_lines = [fn.lineno, fn.end_lineno]
+    counter = [0]
+
+    def number(stmt):
+        counter[0] += 1
+        k = counter[0]
+        last = k
+        for field, value in ast.iter_fields(stmt):
+            if isinstance(value, list) and value and isinstance(value[0], (ast.stmt, ast.ExceptHandler)):
+                for ch in value:
+                    if isinstance(ch, ast.ExceptHandler):
+                        ch.lineno = counter[0] + 1
+                        for g in ch.body:
+                            last = number(g)
+                        ch.end_lineno = last
+                        if ch.type is not None:
+                            for sub in ast.walk(ch.type):
+                                sub.lineno = sub.end_lineno = ch.lineno
+                    else:
+                        last = number(ch)
+            elif isinstance(value, ast.AST):
+                for sub in ast.walk(value):
+                    if hasattr(sub, "lineno"):
+                        sub.lineno = k
+                        sub.end_lineno = k
+            elif isinstance(value, list):
+                for v in value:
+                    if isinstance(v, ast.AST):
+                        for sub in ast.walk(v):
+                            if hasattr(sub, "lineno"):
+                                sub.lineno = k
+                                sub.end_lineno = k
+        stmt.lineno = k
+        stmt.end_lineno = last
+        return last
+    fn2.lineno = 0
+    last = 0
+    for st_ in fn2.body:
+        last = number(st_)
+    fn2.end_lineno = last
+    return fn2
+
+
+def abs_lines(fn):
+    return getattr(fn, "abs_lines", [fn.lineno, fn.end_lineno])
 
 
 def mutation_sites(node):
